@@ -24,9 +24,13 @@ claimed = {
         "message with a variable-length credential id in the middle); for each signed format acceptance implies that the binding oracle answered positively on exactly "
         "that message under the presented certificate / credential key (packed x5c & self, fido-u2f, android-key, tpm incl. extraData, apple nonce, SafetyNet nonce); "
         "under explicit idealised hypotheses (SigBinds / HashInj / ShaTotal) two objects sharing the statement and accepted for (a,h), (a',h') have a = a' and h = h' "
-        "(rpIdHash, credential id and 32-byte coordinates for fido-u2f). Packed self attestation is stated _partial (equal key material) with a kernel-checked "
-        "counterexample to the unrestricted statement. Tie: bit-flip streams over authenticator data, hash and binding elements against the real verifiers.",
-   ref="DESIGN.md §8 C03", technique="Lean 4 proof (message-format injectivity, binding under explicit crypto hypotheses) + differential bit-flip execution"),
+        "(rpIdHash, credential id and the public-key point for fido-u2f: u2f_binds_point, true since the repair of D15 — before it only the leading 32 bytes of each "
+        "coordinate were bound). The signature checks are explicit: X509Sig.Checked / Jws.SignedBy name the primitive, hash and key kind (tables of crypto/x509 and go-jose "
+        "modelled in Lean). Packed self attestation is stated _partial (equal key material) with a kernel-checked "
+        "counterexample to the unrestricted statement. Tie: bit-flip streams over authenticator data, hash and binding elements, short / empty / over-long binding values, "
+        "credential keys wider than the signed data, against the real verifiers.",
+   ref="DESIGN.md §8 C03, §0.5 (D15)", technique="Lean 4 proof (message-format injectivity, binding under explicit crypto hypotheses) + differential bit-flip execution",
+   note="D15 (fido-u2f accepted credential keys whose coordinates exceed the 32 signed bytes) was found by this check and repaired in /repo (fix: 774478d)."),
  "C04": dict(
    text="Lean theorems: for every environment each format's verifier accepts IF AND ONLY IF the declarative requirement list of that format holds (Spec/Attestation.lean: "
         "packed x5c v3 / not CA / C,O,CN non-empty / OU literal / AAGUID extension non-critical and equal; packed self alg = key alg and credential key signed; fido-u2f "
